@@ -75,6 +75,8 @@ class PType:
 class PComp:
     def __init__(self, pkg, file, prefix, types):
         self.pkg, self.file, self.prefix, self.types = pkg, file, prefix, list(types)
+        self.imports = []      # [(package as written, PComp)]: components this component imports itself (before its types)
+        self.decoys = []       # packages holding a DIFFERENT component under the same file name (see decoy_packages)
 
 
 class PDoc:
@@ -98,6 +100,44 @@ def resolve(eff, name):
     if name is not None and name.startswith("."):
         return eff + name
     return name
+
+
+def all_components(doc):
+    """every component reachable from the document (through the imports of components too), each once, in the order the
+    property says their types are defined: a component's own imports before its types"""
+    out, seen = [], set()
+
+    def visit(c):
+        if id(c) in seen:
+            return
+        seen.add(id(c))
+        for _, c2 in c.imports:
+            visit(c2)
+        out.append(c)
+    for _, c in doc.imports:
+        visit(c)
+    return out
+
+
+def decoy_packages(root, mods, right, written):
+    """the packages a component import could be taken for by a loader that resolves the name differently from 'nearest
+    enclosing prefix + name': the other packages of the tree, and - for a name written relative to the prefix - that name
+    under every OTHER package of the tree (created here, empty, when they do not exist).  Returns their names."""
+    out = [m for m in mods if m != right]
+    if written.startswith("."):
+        for m in mods:
+            q = m + written
+            if q != right and q not in out:
+                d = root
+                for part in q.split("."):
+                    d = os.path.join(d, part)
+                    if not os.path.isdir(d):
+                        os.makedirs(d)
+                    if not os.path.exists(os.path.join(d, "__init__.py")):
+                        with open(os.path.join(d, "__init__.py"), "w") as f:
+                            f.write("# decoy package\n")
+                out.append(q)
+    return out
 
 
 # ------------------------------------------------------------------ generation
@@ -226,6 +266,82 @@ class Gen:
         return doc
 
 
+    def gen_doc_nested(self, root):
+        """a document whose COMPONENTS import components themselves: the importing component lives in one package, has (mostly)
+        another prefix, and names the package of the component it imports absolutely or relative to ITS prefix (which is not
+        the prefix of the schema, and mostly not the package it was loaded from).  The imported component is reached through
+        that path alone, or also directly from the schema (before or after: a diamond).  Every other package the written name
+        could be taken for holds a decoy component of the same file name whose types have the same names and other contents."""
+        rng = self.rng
+        doc = PDoc(rng.choice(self.mods) if rng.random() < 0.8 else None)
+        eff = doc.prefix or ""
+        below = [m for m in self.mods if any(m.startswith(q + ".") for q in self.mods)]
+        comps, how = [], {}
+        # the import graph first: component j imports an earlier one (chains, two importers of one component)
+        for j in range(rng.choice((2, 2, 3))):
+            inner = rng.choice(comps) if comps and (j == 1 or rng.random() < 0.7) else None
+            pkg = rng.choice(below) if below and rng.random() < 0.6 else rng.choice(self.mods)
+            prefix = rng.choice(self.mods) if rng.random() < 0.8 else None
+            if inner is not None:
+                above = [m for m in self.mods if inner.pkg.startswith(m + ".")]
+                if above and rng.random() < 0.75:
+                    prefix = rng.choice(above)
+            c = PComp(pkg, "n%d_%d.xml" % (self.serial, j), prefix, [])
+            ceff = c.prefix or ""
+            if inner is not None:
+                written = inner.pkg
+                if ceff and inner.pkg.startswith(ceff + ".") and rng.random() < 0.8:
+                    written = inner.pkg[len(ceff):]
+                    self.stat("nested-import:package-relative-to-component-prefix")
+                    if ceff != c.pkg:
+                        self.stat("nested-import:package-relative-to-component-prefix,prefix-is-not-own-package")
+                    if ceff != eff:
+                        self.stat("nested-import:package-relative-to-component-prefix,prefix-is-not-schema-prefix")
+                else:
+                    self.stat("nested-import:package-absolute")
+                c.imports.append((written, inner))
+                for q in decoy_packages(root, self.mods, inner.pkg, written):
+                    if q not in inner.decoys:
+                        inner.decoys.append(q)
+                if rng.random() < 0.2:
+                    c.imports.append((inner.pkg, inner))       # once more, the name written out
+                if id(inner) not in how:
+                    how[id(inner)] = rng.choice(("through-component-only", "through-component-only", "directly-first", "directly-afterwards"))
+                    self.stat("nested-import:imported-component-" + how[id(inner)])
+            comps.append(c)
+        # what the schema imports itself: the components nobody imports, and some of the others before / after their importers
+        def direct(c):
+            written = c.pkg
+            if eff and c.pkg.startswith(eff + ".") and rng.random() < 0.6:
+                self.stat("import:package-relative-to-prefix")
+                written = c.pkg[len(eff):]
+            for q in decoy_packages(root, self.mods, c.pkg, written):
+                if q not in c.decoys:
+                    c.decoys.append(q)
+            return (written, c)
+        for c in comps:
+            if how.get(id(c), "directly-first") == "directly-first":
+                doc.imports.append(direct(c))
+        for c in comps:
+            if how.get(id(c)) == "directly-afterwards":
+                doc.imports.append(direct(c))
+        # the types, component by component in the order the components are read (a type extends types defined before it)
+        known = []
+        for c in all_components(doc):
+            for _ in range(rng.choice((1, 1, 2))):
+                t = self.gen_type(c.prefix or "", list(known))
+                c.types.append(t)
+                known.append(t.name)
+            if c.prefix != doc.prefix:
+                self.stat("import:component-under-another-prefix")
+        for _ in range(rng.choice((1, 2, 2))):
+            t = self.gen_type(eff, list(known))
+            doc.types.append(t)
+            known.append(t.name)
+        doc.sects = [(n, "s_" + n) for n in known]
+        return doc
+
+
 # ------------------------------------------------------------------ rendering
 def _attrs(pairs):
     return "".join(" %s=%s" % (k, quoteattr(v)) for k, v in pairs if v is not None)
@@ -253,6 +369,8 @@ def _render_type_written(t, out, ind):
 
 def render_component(c):
     out = ["<component%s>" % _attrs([("prefix", c.prefix)])]
+    for written, c2 in c.imports:
+        out.append("  <import%s/>" % _attrs([("package", written), ("file", c2.file)]))
     for t in c.types:
         _render_type_written(t, out, "  ")
     out.append("</component>")
@@ -279,11 +397,8 @@ def render_composed(doc):
 
 def flat_types(doc):
     """[(type, effective prefix of the element enclosing it)] in definition order, every component once"""
-    out, seen = [], set()
-    for _, c in doc.imports:
-        if id(c) in seen:
-            continue
-        seen.add(id(c))
+    out = []
+    for c in all_components(doc):
         out.extend((t, c.prefix or "") for t in c.types)
     out.extend((t, doc.prefix or "") for t in doc.types)
     return out
@@ -316,12 +431,31 @@ def render_expanded(doc, inline_extends=False):
     return "\n".join(out) + "\n", done
 
 
+def render_decoy(c):
+    """a component with the same type names as c and other contents: no datatypes, every key with another default, one key more"""
+    out = ["<component>"]
+    for t in c.types:
+        out.append("  <sectiontype%s>" % _attrs([("name", t.name)]))
+        for k in t.keys:
+            if k.name != "+":
+                _render_key(PKey(k.name, default=["decoy"] if k.multi else "decoy", multi=k.multi, attr=k.attr), None, out, "    ")
+        out.append("    <key name='decoy' default='decoy'/>")
+        out.append("  </sectiontype>")
+    out.append("</component>")
+    return "\n".join(out) + "\n"
+
+
 def write_components(root, doc, overwrite=False):
-    for _, c in doc.imports:
+    for c in all_components(doc):
         p = os.path.join(root, *c.pkg.split("."), c.file)
         if overwrite or not os.path.exists(p):
             with open(p, "w") as f:
                 f.write(render_component(c))
+        for q in c.decoys:
+            p = os.path.join(root, *q.split("."), c.file)
+            if overwrite or not os.path.exists(p):
+                with open(p, "w") as f:
+                    f.write(render_decoy(c))
 
 
 # ------------------------------------------------------------------ texts
